@@ -4,7 +4,7 @@ import QuiverModel.Core.Packaging.Renaming
 Driver glue for `qm_c10`: S-expression → `Prog` (trusted parsing code, no model content).
 
   (prog <slot> (consts K…) (fns F…) (builtins B…) (tuples T…) (types Y…) (resources R…)
-               (compat ROW…) (canon n…))
+               (compat ROW…) (canon n…) (fparam (TAG…)…) (bparam (TAG…)…))
   K   ::= (i <int>) | (b <hex>) | (b)
   F   ::= (fn <captures> <typeId> I…)
   I   ::= pop | dup | store | call | not | spawn | send | self | select
@@ -135,6 +135,10 @@ def parseRow : Sx → Option (Nat × List Tag)
     | _, _ => none
   | _ => none
 
+def parseTagRow : Sx → Option (List Tag)
+  | .list tags => mapOpt parseTag tags
+  | _ => none
+
 def section? (name : String) (parts : List Sx) : Option (List Sx) :=
   parts.findSome? (fun p => match p with
     | .list (.atom n :: xs) => if n == name then some xs else none
@@ -160,7 +164,10 @@ def parseProg (parts : List Sx) : Except String Prog := do
   let rs ← sect "resources" Sx.asAtom parts
   let rows ← sect "compat" parseRow parts
   let cn ← sect "canon" Sx.asNat parts
+  let fp ← sect "fparam" parseTagRow parts
+  let bp ← sect "bparam" parseTagRow parts
   return { consts := cs.toArray, fns := fs.toArray, builtins := bs.toArray, tuples := ts.toArray,
-           types := ys.toArray, resources := rs.toArray, compat := rows, canon := cn.toArray }
+           types := ys.toArray, resources := rs.toArray, compat := rows, canon := cn.toArray,
+           fparam := fp.toArray, bparam := bp.toArray }
 
 end QM.Packaging.Codec
